@@ -2,6 +2,7 @@ package harness
 
 import (
 	"fmt"
+	"math"
 	"sort"
 	"time"
 
@@ -17,7 +18,7 @@ func init() {
 		Files: []string{"fp.go"},
 		Funcs: []string{"PMap", "pMapPreserveOrder", "pMapNoOrder"},
 		Gen:   genC16,
-		Rule: "lists of length 0..8 (thorough 0..16) with unique elements x option (nil, FixedPool in {-1,0,1,len-1,len,len+3}) x RandomOrder; f logs begin, sleeps a data-dependent virtual duration " +
+		Rule: "lists of length 0..8 (thorough 0..16) with unique elements x option (nil, FixedPool in {-1,0,1,len-1,len,len+3,MaxInt,MaxInt/2,MinInt}) x RandomOrder; f logs begin, sleeps a data-dependent virtual duration " +
 			"(including 'later elements finish first'), yields, logs end; PMap's producer/worker/closer goroutines are simulated threads; oracles: ordered result == Map, random result is a permutation, " +
 			"f applied exactly once per element and to nothing else, concurrency gauge <= min(FixedPool,len), PMap returns after the last application and within the horizon; " +
 			"non-trivial = >=2 applications overlapped; distinct = distinct context-switch signature" +
@@ -74,7 +75,7 @@ func genC16(t *simrt.Tape, tier string) Scenario {
 	}
 	sc.HasOpt = !t.Bool(1, 4)
 	if sc.HasOpt {
-		sc.FixedPool = []int{1, -1, 0, n - 1, n, n + 3, 2, 3}[t.Choose(8)]
+		sc.FixedPool = []int{1, -1, 0, n - 1, n, n + 3, 2, 3, math.MaxInt, math.MaxInt / 2, math.MinInt}[t.Choose(11)]
 		sc.Random = t.Bool(1, 2)
 	}
 	mode := t.Choose(4) // 0 equal, 1 decreasing (later finish first), 2 random, 3 zero
